@@ -166,6 +166,10 @@ MonDecode(m0, ev) ==
         <<malRangeBad, "C01.malformed-range">>,
         <<ev.res = "M" /\ cfg.repl, "C09.malformed-with-replacement">>,
         <<cfg.repl /\ hadErr # ev.had, "C09.had-errors">>,
+        \* the twin decoder driven by the documented manual procedure on the same (src, capacity, last): the caller's loop over
+        \* the without-replacement method, one U+FFFD appended per Malformed result, the rest re-pushed
+        <<"man" \in DOMAIN ev /\ ev.man # [res |-> ev.res, read |-> ev.read, written |-> ev.written, had |-> ev.had, out |-> ev.out],
+          "C09.manual-differs">>,
         <<ev.res = "I" /\ ev.read # Len(src), "C06.inputempty-unconsumed">>,
         <<finished /\ rest # <<>>, "C02.lost">>,
         <<ev.enc # encExpected, "C10.encoding">>,
